@@ -10,6 +10,14 @@ use micromap::{Entry, Map, Set};
 const LO: u64 = 0xA5A5_A5A5_A5A5_A5A5;
 const HI: u64 = 0x5A5A_5A5A_5A5A_5A5A;
 
+static mut ZD_MADE: usize = 0;
+static mut ZD_DROPS: usize = 0;
+/// zero-sized, never equal to anything, counts constructions and destructions
+pub struct Zd;
+impl Zd { fn new() -> Zd { unsafe { ZD_MADE += 1; } Zd } }
+impl PartialEq for Zd { #[inline(always)] fn eq(&self, _: &Zd) -> bool { false } }
+impl Drop for Zd { fn drop(&mut self) { unsafe { ZD_DROPS += 1; } } }
+
 #[repr(C)]
 pub struct Guarded<T> { lo: [u64; 2], pub c: T, hi: [u64; 2] }
 impl<T> Guarded<T> {
@@ -349,6 +357,48 @@ pub fn c03_shapes<const N: usize, const S: u8>() {
     match S {
         0 => run!(u8, (), |k: u8| k, |_k: u8| (), |k: &u8| *k),
         1 => run!(u8, [u64; 3], |k: u8| k, |k: u8| [k as u64, 7, !(k as u64)], |k: &u8| *k),
+        3 => {
+            // fully zero-sized pairs `(Zd, ())`: Zd is never equal to another Zd (so a map can hold several) and counts its
+            // destructions.  All slots share one address: a bound check written in terms of slot addresses sees an empty range.
+            let mut g: Guarded<Map<Zd, (), N>> = unsafe { vf::garbage() };
+            vf::assume(g.c.len() == 0);
+            g.lo = [LO; 2];
+            g.hi = [HI; 2];
+            unsafe { ZD_MADE = 0; ZD_DROPS = 0; }
+            let mut i = 0;
+            while i < N { vf::check(g.c.insert(Zd::new(), ()).is_none(), 100); i += 1; }
+            let which = vf::any_u8();
+            vf::assume(which < 6);
+            let panics0 = vf::panics();
+            let panicked = {
+                let m = &mut g.c;
+                vf::catch(move || match which {
+                    0 => { let _ = m.insert(Zd::new(), ()); }
+                    1 => { let _ = m.insert_key_value(Zd::new(), ()); }
+                    2 => { let _ = m.entry(Zd::new()).or_insert(()); }
+                    3 => { let _ = m.entry(Zd::new()).or_default(); }
+                    4 => { let _: Map<Zd, (), N> = (0..N + 1).map(|_| (Zd::new(), ())).collect(); }
+                    _ => { let mut s: micromap::Set<Zd, N> = micromap::Set::new(); s.extend((0..N + 1).map(|_| Zd::new())); }
+                })
+            };
+            vf::check(panicked, 711);
+            if panicked { vf::reach(1); }
+            if vf::COUNTS_PANICS { vf::check(vf::panics() == panics0 + 1, 712); }
+            vf::check(g.intact(), 713);
+            vf::check(g.c.len() == N && g.c.capacity() == N, 720);
+            // everything created except the N stored keys has been destroyed exactly once (the rejected key included)
+            unsafe { vf::check(ZD_DROPS + N == ZD_MADE, 714); }
+            vf::check(g.c.checked_insert(Zd::new(), ()).is_none(), 717);
+            unsafe { vf::check(ZD_DROPS + N == ZD_MADE, 714); }
+            let mut t = 0usize;
+            for _ in g.c.iter() { t += 1; }
+            vf::check(t == N, 202);
+            g.c.clear();
+            unsafe { vf::check(ZD_DROPS == ZD_MADE, 715); }
+            let mut i = 0;
+            while i < N { vf::check(g.c.insert(Zd::new(), ()).is_none() && g.c.len() == i + 1, 716); i += 1; }
+            vf::check(g.intact(), 713);
+        }
         _ => {
             // zero-sized key: every key equals every other, so N = 1 is the only full non-trivial map and an "absent key" does not exist;
             // what must hold: a second insert replaces (never appends), capacity is respected, nothing outside is written
@@ -371,7 +421,7 @@ pub fn c03_shapes<const N: usize, const S: u8>() {
 }
 
 harnesses! {
-    c03_shapes: [0, 0] [1, 0] [2, 0] [3, 0] [0, 1] [1, 1] [2, 1] [3, 1] [0, 2] [1, 2] [2, 2];
+    c03_shapes: [0, 0] [1, 0] [2, 0] [3, 0] [0, 1] [1, 1] [2, 1] [3, 1] [0, 2] [1, 2] [2, 2] [0, 3] [1, 3] [2, 3] [3, 3];
     c03_insert: [0] [1] [2] [3];
     c03_insert_kv: [0] [1] [2] [3];
     c03_or_insert: [0] [1] [2] [3];
